@@ -23,7 +23,7 @@ class P:
     rule = ("EXEC in BOTH a debug and a release build of the impl: every numeric/bit operator, compound assignment, postfix "
             "operator and aggregate function over an edge pool (0, +-1, +-Decimal::MAX, MAX-1, 28-digit scales, i64::MIN/MAX, "
             "+-2^63, shift counts -1/-64/0/63/64/65/2^32, fractional, None and every wrong type) - exhaustive over the pool - "
-            "plus empty aggregates. Oracle: result class is Ok or Err, every listed fault is Err, an Ok number equals the exact "
+            "plus empty aggregates; twelve kinds of fault as a later element / argument / entry / operand of 22 enclosing forms (after an element that already decides an AND / OR). Oracle: result class is Ok or Err, every listed fault is Err, an Ok number equals the exact "
             "result (or its rounding), and the two builds agree. Non-trivial = distinct (operator, operands).")
     assumptions = ["`<<` discards bits shifted out of 64 bits (two's-complement semantics of the property C03); only the shift COUNT is a fault"]
     trusted_extra = ["cargo --release build of the harness (overflow-checks off) alongside the debug build (overflow-checks on)"]
@@ -63,7 +63,17 @@ class P:
                 "1<<1.5", "1.5<<1", "9223372036854775808|0", "AND[]", "OR[]", "min()", "max()", "sum()", "mul()", "min([])",
                 "x=79228162514264337593543950335; x+=1; x", "x=1; x/=0; x", "x=1; x<<=64; x", "x=1; x%=0; x", "1/3*3", "2/3",
                 "0.0000000000000000000000000001/10", "0.0000000000000000000000000001*0.1"]
-        cases = flow.mk_cases("edges", items)
+        # a fault is reported from WHEREVER it sits: every kind of fault as a later element / argument / entry / operand, after an
+        # element that would already decide the surrounding AND / OR / comparison
+        faults = ["1 / zero", "1 % zero", "one << big", "2.5 | 1", "min()", "'a' + 1", "nothing + 1", "79228162514264337593543950335 + one",
+                  "one <<= big", "- 'a'", "true ++", "1 in 2"]
+        nested = []
+        for f_ in faults:
+            for tmpl in ("AND[1 > 2, %s > 0]", "OR[1 < 2, %s > 0]", "AND[false, %s]", "OR[true, %s]", "AND[true, false, %s]", "OR[false, true, 1, %s]",
+                         "[1, %s]", "[%s, 1]", "{1: %s}", "{%s : 1}", "max(1, %s)", "sum(%s, 1)", "false && (%s) > 0", "true || (%s) > 0",
+                         "1 in [1, %s]", "x = [1, %s]; 1", "true ? [%s] : 0", "(%s) == (%s)", "not (AND[false, %s])", "AND[false, [%s]]", "1; %s", "%s; 1"):
+                nested.append(("CV:1:%s:n(0,0,0) CV:1:%s:n(0,1,0) CV:1:%s:n(0,40,0) EXEC:1:%s" % (hx("zero"), hx("one"), hx("big"), hx(tmpl.replace("%s", f_))), ("must-err",)))
+        cases = flow.mk_cases("edges", items) + flow.mk_cases("nested", nested)
         cases += flow.mk_cases("lits", [("EXEC:1:" + hx(s), None) for s in lits])
         return cases
 
@@ -111,6 +121,8 @@ class P:
             return "violates", "debug and release builds disagree: %s vs %s" % (out[:80], rel[:80])
         m = case.meta
         if not m: return "ok", ""
+        if m[0] == "must-err":
+            return ("ok", "") if d["cls"] == "ERR" else ("violates", "a fault inside an evaluated part is not reported: " + out[:60])
         pv = lambda t: evalspec.from_proto(values.parse_value(t))
         if m[0] == "infix": want = evalspec.infix(m[1], pv(m[2]), pv(m[3]))
         elif m[0] == "postfix": want = evalspec.postfix(m[1], pv(m[2]))
